@@ -108,6 +108,23 @@ def run(ctx):
             C.check(t['default_radix'] == 10, 'C20-SIB-radix', name + '|default-decimal', 'the default arm of parse_integer does not parse with radix 10', where)
         else:
             C.check(t['default_parse'], 'C20-SIB-radix', name + '|default-float-parse', 'the default arm of parse_float does not use str::parse (decimal / exponent / INF / NaN forms)', where)
+    # the all-digit prefix "0" must not hand a text it recognised on to the decimal arm when the conversion fails (overflow):
+    # either the conversion is in the arm's body (failure = None), or the arm's condition selects by the FORM of the text
+    # (a digit-class test over the remainder) before converting
+    for name in tabs:
+        fn_ = fns[name]
+        ok_oct = False
+        for n in walk(fn_['body']):
+            if n.get('k') == 'if' and isinstance(n.get('c'), dict):
+                cond = n['c']
+                sp = [x for x in walk(cond) if x.get('k') == 'mcall' and x.get('m') == 'strip_prefix' and x['args'] and str(x['args'][0].get('v')) == '0']
+                if not sp:
+                    continue
+                conv_in_cond = any(x.get('k') == 'call' and str(x.get('f', {}).get('v', '')).endswith('from_str_radix') for x in walk(cond))
+                form_test = any(x.get('k') == 'mcall' and x.get('m') in ('all', 'any') for x in walk(cond))
+                ok_oct = (not conv_in_cond) or form_test
+        C.check(ok_oct, 'C20-SIB-radix', name + '|octal-arm-does-not-fall-through-to-decimal', 'in %s a text with the octal prefix whose conversion fails (more than 64 bits) falls through to the decimal arm and is returned as a DIFFERENT number (0200..0 = 2^64 read as 2e21)' % name,
+                'autosar-data/src/chardata.rs:%s' % fn_.get('line', ''), sample={'fn': name, 'octal_arm': 'selected by form, conversion failure yields None'})
     if len(tabs) == 2:
         a = [(p, r) for p, r, _ in tabs['parse_integer']['chain']]
         b = [(p, r) for p, r, _ in tabs['parse_float']['chain']]
